@@ -680,7 +680,7 @@ def run_bounded(res):
         for kind, text, where in out['fails']:
             fid = None
             for prefix, f in KNOWN.items():
-                if kind.startswith(prefix):
+                if common.kind_matches(kind, prefix):
                     fid = f
             if fid:
                 res.known_hit(fid)
